@@ -33,6 +33,21 @@ RNG_FUNCS = (
 )
 
 
+def _in_import() -> bool:
+    """True while the calling thread is executing an import (it then holds module import locks:
+    handing the baton on would deadlock against another thread importing the same module)."""
+    import sys
+
+    f = sys._getframe(1)
+    depth = 0
+    while f is not None and depth < 80:
+        if f.f_code.co_filename.startswith("<frozen importlib"):
+            return True
+        f = f.f_back
+        depth += 1
+    return False
+
+
 def _who() -> str:
     sim = sched.current_sim()
     if sim is None:
@@ -151,6 +166,8 @@ class FsSeam:
 
         def wrapper(*args, **kwargs):
             sim = sched.current_sim()
+            if sim is not None and _in_import():
+                return orig(*args, **kwargs)
             if sim is not None:
                 sim.yield_point("fs")
             p = path_of(args, kwargs)
